@@ -348,16 +348,23 @@ def _r4_one_partition(chk, repo):
     arithmetic and differs by rounding whenever a node lies on a step boundary."""
     se = repo.cls(f"{GEO}:StepExpansion")
 
-    def index_attrs(fn):
-        out = set()
-        for n in ast.walk(fn):
-            if isinstance(n, ast.Subscript):
-                for x in ast.walk(n.slice):
-                    if isinstance(x, ast.Attribute) and path_of(x.value) == "self":
-                        out.add(x.attr)
-        return out
     init_w = {path_of(t)[5:] for n in ast.walk(se.methods["__init__"]) if isinstance(n, ast.Assign) for t in n.targets if (path_of(t) or "").startswith("self.")}
-    a_, b_ = index_attrs(se.methods["par2fun"]) & init_w, index_attrs(se.methods["fun2par"]) & init_w
+    init_w |= {"grid"}
+    fns = (se.methods["par2fun"], se.methods["fun2par"])
+    # the stored quantities either map looks things up in (self.X[...]), and which of them each map reads at all
+    indexed = {n.value.attr for f_ in fns for n in ast.walk(f_) if isinstance(n, ast.Subscript) and isinstance(n.value, ast.Attribute) and path_of(n.value.value) == "self"}
+    def iterated(it):
+        if isinstance(it, ast.Attribute) and path_of(it.value) == "self":
+            return {it.attr}
+        if isinstance(it, ast.Call) and call_name(it) in ("enumerate", "zip", "reversed", "list", "iter"):
+            return set().union(*[iterated(a__) for a__ in it.args]) if it.args else set()
+        return set()
+    indexed |= {x for f_ in fns for n in ast.walk(f_) if isinstance(n, (ast.For, ast.comprehension)) for x in iterated(n.iter)}      # ... or iterates over
+    indexed &= init_w
+
+    def reads(fn):
+        return {n.attr for n in ast.walk(fn) if isinstance(n, ast.Attribute) and path_of(n.value) == "self" and isinstance(n.ctx, ast.Load)} & indexed
+    a_, b_ = reads(fns[0]), reads(fns[1])
     chk.add("C13-R4", f"{se.qual}/one-partition", bool(a_) and a_ == b_, site(repo, se.methods["par2fun"]), "par2fun and fun2par index with the same stored partition",
             f"par2fun indexes with the stored attributes {sorted(a_)}, fun2par with {sorted(b_)}: the two maps no longer share one node-to-step partition, so "
             f"fun2par(par2fun(p)) != p for grids with a node on a step boundary", se.methods["par2fun"])
@@ -384,7 +391,16 @@ def _r4(chk, repo):
     lp = node.ast
     i = lp.target.id if isinstance(lp.target, ast.Name) else None
     problems = []
-    if i is None or pn(_sub(lp.iter, env)) != "range(self._n_steps)":
+    # a constructor argument that was stored unchanged in an attribute IS that attribute (n_steps / self._n_steps, grid / self.grid)
+    stored_as = {v_.id: k_ for k_, v_ in env.items() if isinstance(k_, str) and k_.startswith("self.") and isinstance(v_, ast.Name)}
+
+    class _Unalias(ast.NodeTransformer):
+        def visit_Name(self, n_):
+            if isinstance(n_.ctx, ast.Load) and n_.id in stored_as:
+                return ast.copy_location(ast.parse(stored_as[n_.id], mode="eval").body, n_)
+            return n_
+    import copy as _cp
+    if i is None or pn(_Unalias().visit(_cp.deepcopy(_sub(lp.iter, env)))) != "range(self._n_steps)":
         problems.append("loop does not run over the steps")
     # the collected value: last statement `<list>.append(X)`
     body = list(lp.body)
@@ -403,7 +419,7 @@ def _r4(chk, repo):
         if k2 != "return":
             problems.append(f"{'first' if first else 'later'} interval: not decidable ({k2}: {r2})")
             continue
-        got = pn(_SymOrder().visit(r2))
+        got = pn(_SymOrder().visit(_Unalias().visit(_cp.deepcopy(r2))))
         w = pn(_SymOrder().visit(ast.parse(want[first], mode="eval").body))
         if got != w:
             what = "closed [start, end]" if first else "half-open (start, end]: a node on a boundary would belong to two steps or to none"
@@ -411,8 +427,9 @@ def _r4(chk, repo):
                             f"(the end of step i must be the same expression as the start of step i+1)")
     # the collection ends up in self._indices, in step order
     V = pn(init)
-    if not (coll == "self._indices" or pn(f"self._indices={coll}") in V):
-        problems.append("interval indices are not collected in order into self._indices")
+    stored_coll = coll.startswith("self.") or any(isinstance(a_, ast.Assign) and (path_of(a_.targets[0]) or "").startswith("self.") and path_of(a_.value) == coll for a_ in ast.walk(init))
+    if not stored_coll:
+        problems.append("interval indices are not collected in order into an attribute of the geometry")
     chk.add("C13-R4", f"{se.qual}.__init__/partition", not problems, site(repo, src), "[x0, e0], (e0, e1], ... with shared boundary expressions", "; ".join(problems), src)
 
 
